@@ -55,6 +55,11 @@ TOL64, TOL32 = 1e-9, 5e-4
 
 
 def pregenerate():
+    """regenerate Generated/Aberration.lean from the tree under test.  The two guarded series (aberration_surface and its
+    polar gradients) are TRACED (the real functions executed on symbols); everything else goes through the syntactic
+    translator.  A unit whose source left the grammar keeps the text of the reference tree — that text is still run by the
+    driver against the real code in the correspondence streams — and is listed in the evidence (`translator_notes`);
+    only a unit without any reference text breaks the tie."""
     from translator import aberr2lean
     aberr2lean.regenerate()
     return None
@@ -708,6 +713,10 @@ def run(ctx):
     torch.manual_seed(0)
     drv = Driver("C12")
     try:
+        from translator import aberr2lean
+        ctx.extra["translator_notes"] = {"units_kept_from_reference_text": list(aberr2lean.NOTES),
+                                         "tracer_gave_up_syntactic_used": list(aberr2lean.INFO)}
+        ctx.dist[f"translator:units_not_retranslated={len(aberr2lean.NOTES)}"] += 1
         check_tables(ctx, drv)
         nf, na, nfit = ctx.n(300, 12000), ctx.n(700, 30000), ctx.n(120, 4000)
         for i in range(nf):
